@@ -359,9 +359,10 @@ def run(run):
             for b in full:
                 cases.append({"kind": kind, "hist": [a, b]})
         if thorough:
-            for a in core:
-                for b in core:
-                    for c in core:
+            deep = full if kind in ("mock", "track:mock") else core     # full menu at depth 3 for the base runner and its tracker
+            for a in deep:
+                for b in deep:
+                    for c in deep:
                         cases.append({"kind": kind, "hist": [a, b, c]})
     secs = [Section("histories", cases, history_case, horizon=120, chunk=200,
                     desc="all call histories (full menu: %d events, core: %d) on %d runner kinds" % (len(full_all), len(core_all), len(KINDS)))]
